@@ -140,6 +140,7 @@ pub fn run(ctx: &mut Ctx) {
     let maxl = if ctx.quick() { 7 } else { 9 };
     let shapes = all_depth_sequences(maxl);
     ctx.max("exhaustive_max_leaves", maxl as u64);
+    ctx.seen("exhaustive_subspaces", "C15: every full binary tree shape up to the leaf bound (x3 leaf variants); every depth sequence up to the length bound over 0..=len (accepted iff valid)");
     ctx.phase("all-shapes", shapes.len() as u64 * 3, |ctx, k| {
         let depths = &shapes[(k / 3) as usize];
         let variant = k % 3; // 0 distinct scripts, 1 duplicates allowed, 2 hidden nodes allowed
